@@ -172,6 +172,32 @@ func hasLoops(fn *ssa.Function) bool {
 
 func (e *Exec) callFunction(fr *Frame, ins ssa.Instruction, fn *ssa.Function, args, binds []Val, resT types.Type, st *State, g string, isGo bool) Val {
 	key := FuncKey(fn)
+	if fr.ctr != nil && fr.depth == 0 {
+		for i, mc := range fr.ctr.MustCall {
+			if mc.Key != key {
+				continue
+			}
+			name := fmt.Sprintf("$calls$must%d", i)
+			cnt := e.get(st, name, SInt)
+			e.set(st, name, SInt, Ite(g, "(+ "+cnt+" 1)", cnt))
+			if mc.Recv != nil && len(args) > 0 {
+				env := e.envForFunc(fr, st, fr.entryState, nil)
+				env.block = ins.Block()
+				want := e.evalSpec(mc.Recv.E, env)
+				got := args[0]
+				gt := got.T
+				if got.Addr != nil {
+					gt = e.reify(got)
+				}
+				wt := want.T
+				if want.Addr != nil {
+					wt = e.reify(want)
+				}
+				e.Out.AddObl(&Obligation{Name: fmt.Sprintf("%s/mustcall:%s/receiver", FuncKey(fr.fn), trimPkg(key)), Func: FuncKey(fr.fn), Kind: "calls", Label: "receiver", Text: "the call of " + key + " is on " + mc.Recv.Text, Src: mc.Src,
+					Formula: Imp(g, Eq(gt, wt)), Inputs: e.obsInputs(fr)})
+			}
+		}
+	}
 	ctr := e.P.Spec.Contracts[key]
 	if ctr != nil && !ctr.Flags["inline"] {
 		names := ctr.Params
